@@ -90,6 +90,13 @@ type wrapErr struct {
 func (e *wrapErr) Error() string { return e.msg + ": " + e.in.Error() }
 func (e *wrapErr) Unwrap() error { return e.in }
 
+// enum-style Stringer
+type enumStr int
+
+var enumNames = [3]string{"zero", "one", "two"}
+
+func (e enumStr) String() string { return enumNames[e] }
+
 // GoStringer
 type gostrer struct{ s string }
 
@@ -210,7 +217,10 @@ const (
 	vkSliceErr
 	vkMapUint64
 	vkMapMyUint
-	vkNumPrinter // number of fmt-compatible kinds
+	vkMapInt64Extreme
+	vkMapIntNeg
+	vkEnumStringer // Stringer indexing a table: out-of-range values panic with a runtime error that embeds the value
+	vkNumPrinter   // number of fmt-compatible kinds
 )
 
 // redact-specific kinds (excluded from the fmt differential)
@@ -350,6 +360,12 @@ func mkValue(kind int, s string, i int) interface{} {
 		return []error{valErr{s}, nil}
 	case vkMapUint64:
 		return map[uint64]string{uint64(1<<63) + uint64(i): s, 1: "x", 7: "y"}
+	case vkMapInt64Extreme:
+		return map[int64]string{-9223372036854775808: s, 1: "x", -5: "y", 9223372036854775807: "z"}
+	case vkMapIntNeg:
+		return map[int]int{-(1 << 62) - (1 << 61): 1, 1 << 62: 2, i: 3}
+	case vkEnumStringer:
+		return enumStr(i)
 	case vkMapMyUint:
 		return map[myUint]int{myUint(1<<63) + myUint(i): 1, 2: 2}
 
